@@ -86,6 +86,15 @@ def run_cfg(ctx, p, cfg):
         other = [c.callee for c in uses if c not in ser and c not in ctor and c not in wa]
         r.require(len(ser) == 1 and len(ctor) == 1 and len(wa) == 1 and not other, "writer-uses", fn=f,
                   detail="uses of the writer: serialize %d, Serializer::new %d, write_all %d, other %s" % (len(ser), len(ctor), len(wa), other))
+        # the trait method hands the writer to that function and does nothing else with it (a style request or any other byte
+        # before or after the object would be part of the line)
+        e_ = p.fn(ENCODE)
+        if e_.path != f.path:
+            wu = [c for c in e_.calls() if any(deep_strip(a) == ("param", 2) for a in c.arg_exprs())
+                  and c.callee not in ("core::ops::try_trait::Try::branch", "core::ops::try_trait::FromResidual::from_residual")]
+            r.require(len(wu) == 1 and wu[0].callee == f.path, "encode-only-hands-the-writer-on", fn=e_, detail="uses of the writer in Encode::encode: %s" % [c.callee for c in wu],
+                      fail_detail="JsonEncoder::encode uses the writer for %s besides handing it to %s: whatever that emits is on the record's line" % (
+                          [c.callee for c in wu if c.callee != f.path], f.path.rsplit("::", 1)[-1]))
         if len(ser) == 1 and len(wa) == 1:
             s, w = ser[0], wa[0]
             r.require(f.dominates(s.block, w.block) and s.block != w.block and not f.in_loop(w.block) and not f.in_loop(s.block), "newline-after-serialize", fn=f, site=w.at, detail="serialize dominates the single write_all")
